@@ -487,20 +487,51 @@ def _d4(f, t, h):
 #                                                           tests, accumulated over the sweep
 #   x softness        curvature scale / smallest eigenvalue (errors grow ~1/H near a spinodal)
 #   + minimiser noise 2 eps_mach |V| / eps_fd / H           forward-difference gradient of
-#                     scipy's BFGS, eps_fd = 1.49e-8 * fieldValueVariationScale (unit-invariant)
-# TOL_SAFETY = 3 x the worst observed error/model on the unchanged tree (HEAD c2d5801) over
-# seeds 1..12 at quick size and 4 x 230 further cases at thorough density: Newton step 0.73,
-# branch distance 0.27, interpolated fields 0.83, interpolated Veff 0.50, negative exact
-# eigenvalue at an accepted point 1.16 x 1e-7 T^2  ->  3 x 1.16 = 3.5.  Every run records its
-# own worst ratios in the evidence ("worst_error_over_model").
-TOL_SAFETY = 3.5
+#                     scipy's BFGS; eps_fd is read off the running code (minimiser_step):
+#                     scipy's absolute default 1.49e-8 unless findLocalMinimum passes options
+# TOL_SAFETY = 3 x the worst observed error/model on the unchanged tree (HEAD 03e0115, scipy's
+# absolute default step) over seeds 1..12 at quick size, 4 x 230 further cases at thorough
+# density and the VERIF_SEED=6 case: Newton step 1.29 (quartic1, unit 1e-3, paranoid off,
+# rTol 1e-8: RK45's accumulated error, the re-minimisation being a no-op in small units),
+# branch distance 0.39, interpolated fields 0.38, interpolated Veff 0.47  ->  3 x 1.29 ~ 4.
+# Every run records its own worst ratios in the evidence ("worst_error_over_model").
+TOL_SAFETY = 4.0
 # negative exact eigenvalue at an accepted point: worst observed 2.12 x 1e-7 T^2 (thorough tier)
 EIG_SAFETY = 7.0
 
 
+SCIPY_DEFAULT_EPS = 1.4901161193847656e-08      # scipy's absolute forward-difference step
+
+
+def minimiser_step(m):
+    """The finite-difference step the code under test really hands to scipy's minimiser:
+    findLocalMinimum is run once with scipy.optimize.minimize wrapped, and options['eps'] (if
+    any) is read off the call; without options scipy uses its absolute default."""
+    if getattr(m, "_eps_fd", None) is not None:
+        return m._eps_fd
+    import scipy.optimize
+    from WallGo import Fields
+    seen = []
+    orig = scipy.optimize.minimize
+
+    def spy(fun, x0, *a, **k):
+        opts = k.get("options") or {}
+        seen.append(opts.get("eps", opts.get("finite_diff_rel_step")))
+        return orig(fun, x0, *a, **k)
+    scipy.optimize.minimize = spy
+    try:
+        ph = m.phases[m.low]
+        T = 0.5 * (max(ph.Tlo, 0.0) + ph.Thi) if math.isfinite(ph.Thi) else 2 * ph.Tlo
+        m.pot.findLocalMinimum(Fields(ph.loc(T)), T, tol=1e-6)
+    finally:
+        scipy.optimize.minimize = orig
+    eps = seen[0] if seen and seen[0] is not None else SCIPY_DEFAULT_EPS
+    m._eps_fd = float(np.min(np.atleast_1d(np.asarray(eps, dtype=float))))
+    return m._eps_fd
+
+
 def err_model(m, rTol, soft, v, emin):
-    fsv = float(np.max(np.atleast_1d(m.pot.derivativeSettings.fieldValueVariationScale)))
-    noise = 2.2e-16 * abs(v) / (1.4901161193847656e-08 * fsv)
+    noise = 2.2e-16 * abs(v) / minimiser_step(m)
     return (100 * rTol + 1e-7) * m.fscale * soft + 2 * noise / max(emin, 1e-300)
 
 
